@@ -25,7 +25,7 @@ import (
 	"verif/engine/core"
 )
 
-const straceShards = 32
+const straceShards = 512 // small sub-runs: a violation is reproduced by re-running one of them
 
 // required-flag subsets exercised under strace: iosafe alone, iosafe with the
 // two flags the IO library also declares, all four.
@@ -91,7 +91,7 @@ func straceInner(shard, of uint64) {
 			if err != nil {
 				return
 			}
-			bargs := spellArgs(mc, fv, quickTuples[c.tp], c.sp)
+			bargs := spellArgs(mc, fv, quickTuples[c.tp], c.sp, false)
 			drainChildren()
 			mark('b', i)
 			mc.enter(i%2 == 1, c.req, bargs)
